@@ -43,6 +43,49 @@ size_t g_rf_len, g_rf_k; bool g_rf_seen; char g_rf_val;
 static void rf_reset(void) { g_rf_len = 0; g_rf_seen = 0; }
 static void rf_put(char c) { if(g_rf_len == g_rf_k) { g_rf_seen = 1; g_rf_val = c; } g_rf_len++; }
 '''
+
+PRE += 'size_t g_b0;\n'
+PRE += r'''
+/* ---- multipart part of request::on_content_progress: consume() is an oracle (its own contract: unit multipart) that eats some input and reports an event; the loop must forward every
+ *      event exactly once (limit check, filter call-backs), stop with 413 / 400 on the first violation and demand that the parser's eof coincides with the declared length */
+#define MP_continue_input 1
+#define MP_meta_ready 2
+#define MP_content_partial 3
+#define MP_content_ready 4
+#define MP_no_room_left 5
+#define MP_eof 6
+#define MP_parsing_error 7
+struct req2 { long long content_length, read_size; size_t cl_limit; bool filter_is_multipart_filter; };
+int g_last_r; bool g_mpf; int g_pend_size, g_pend_cb, g_pend_seek, g_evbad; bool g_last_sizeok, g_size_failed; int g_cur_file; long long g_size_limit_seen;
+static int consume_rec(char const **b, char const *e)
+{
+  __CPROVER_assert(SAME(*b, e) && OFF(*b) < OFF(e), "consume() is called with input left");
+  size_t adv; __CPROVER_assume(adv <= OFF(e) - OFF(*b)); *b += adv;
+  int r; g_last_r = r;
+  if(r == MP_meta_ready) { g_pend_cb = g_mpf ? MP_meta_ready : 0; }
+  if(r == MP_content_partial) { g_pend_size = 1; g_pend_cb = g_mpf ? MP_content_partial : 0; }
+  if(r == MP_content_ready) { g_pend_size = 1; g_pend_seek = 1; g_pend_cb = g_mpf ? MP_content_ready : 0; }
+  return r;
+}
+static int get_file_rec(void) { if(g_last_r != MP_meta_ready && g_last_r != MP_content_partial) g_evbad = 1; return g_cur_file; }
+static int last_file_rec(void) { if(g_last_r != MP_content_ready) g_evbad = 1; return g_cur_file; }
+static void file_seek0_rec(int f) { if(f != g_cur_file || !g_pend_seek) g_evbad = 1; g_pend_seek = 0; }
+static bool size_ok_rec(int f, long long allowed) { if(f != g_cur_file || !g_pend_size) g_evbad = 1; g_pend_size = 0; g_size_limit_seen = allowed; int ok; g_last_sizeok = ok != 0; if(!g_last_sizeok) g_size_failed = 1; return g_last_sizeok; }
+static void mpf_cb(int kind, int f) { if(f != g_cur_file || g_pend_cb != kind || g_pend_size) g_evbad = 1; g_pend_cb = 0; }
+static void mpf_on_new_file_rec(int f) { mpf_cb(MP_meta_ready, f); }
+static void mpf_on_upload_progress_rec(int f) { mpf_cb(MP_content_partial, f); }
+static void mpf_on_data_ready_rec(int f) { if(g_pend_seek) g_evbad = 1; mpf_cb(MP_content_ready, f); }
+/* size_ok: form fields (no MIME type) are limited, files are not */
+bool g_has_mime; long long g_fsize; int g_notice;
+#define LIM_content_length_limit 1
+#define LIM_multipart_form_data_limit 2
+#define LIM_file_in_memory_limit 3
+size_t g_cl_limit; long long g_other_limit;
+static long long limit_rec(int k) { return k == LIM_content_length_limit ? (long long)g_cl_limit : g_other_limit; }
+static bool f_has_mime(void) { return g_has_mime; }
+static long long f_size(void) { return g_fsize; }
+static void notice_rec(void) { g_notice = 1; }
+'''
 functions = [
     dict(cname='request_on_content_start', file=R, locate=lit('int request::on_content_start()'), sig='int request_on_content_start(struct req *self)',
          rewrites=[(r'd->content_length', 'self->content_length', 3), (r'd->limits\.multipart_form_data_limit\(\)', 'self->mp_limit', 1),
@@ -88,6 +131,41 @@ __CPROVER_assigns(in->pos, g_rf_len, g_rf_seen, g_rf_val)
 /* C12: the value of a form field is the WHOLE content of its part, from the first byte, wherever the stream's get position was left (a filter may have read it) */
 __CPROVER_ensures(g_rf_len == in->n && (g_rf_k < in->n ==> (g_rf_seen && g_rf_val == in->p[g_rf_k])))
 '''),
+    dict(cname='req_size_ok', file=R, locate=lit('bool request::size_ok(file &f,long long size)'), sig='bool req_size_ok(long long size)',
+         rewrites=[(r'f\.has_mime\(\)', 'f_has_mime()', 1), (r'f\.size\(\)', 'f_size()', 1), (r'(?s)BOOSTER_NOTICE\("cppcms"\).*?;', 'notice_rec();', 0)],
+         contract='__CPROVER_assigns(g_notice)\n/* C12: a form FIELD (a part without a MIME type) larger than the content-length limit is refused; files are limited elsewhere (multipart limit, spill to disk) */\n'
+                  '__CPROVER_ensures(__CPROVER_return_value == (g_has_mime || !(g_fsize > size)))'),
+    dict(cname='req_mp_loop', file=R, locate=lit('int request::on_content_progress(size_t n)'), sig='int req_mp_loop(struct req2 *self, char const *begin, char const *end)',
+         slice=dict(between=(r'multipart_parser::parsing_result_type r = multipart_parser::continue_input;', r'if\(begin==end &&[^{]*\{\s*return \w+;\s*\}'), tail=' return 0;'),
+         rewrites=[(r'multipart_parser::parsing_result_type', 'int', 1), (r'multipart_parser::(\w+)', r'MP_\1', 7), (r'd->limits\.(\w+)\(\)', r'limit_rec(LIM_\1)', 1),
+                   (r'd->multipart_parser->consume\(begin,end\)', 'consume_rec(&begin, end)', 1), (r'file &f=d->multipart_parser->get_file\(\);', 'int f = get_file_rec();', 0),
+                   (r'file &f=d->multipart_parser->last_file\(\);', 'int f = last_file_rec();', 0), (r'f\.data\(\)\.seekg\(\w\);', 'file_seek0_rec(f);', 0), (r'size_ok\(f,allowed\)', 'size_ok_rec(f, allowed)', 0),
+                   (r'static_cast<multipart_filter \*>\(d->filter\)->(\w+)\(f\)', r'mpf_\1_rec(f)', 0), (r'd->filter_is_multipart_filter', 'self->filter_is_multipart_filter', 0),
+                   (r'd->read_size', 'self->read_size', 2), (r'd->content_length', 'self->content_length', 2)],
+         loops={0: r'''
+__CPROVER_assigns(begin, r, g_last_r, g_pend_size, g_pend_cb, g_pend_seek, g_evbad, g_last_sizeok, g_size_failed, g_size_limit_seen)
+__CPROVER_loop_invariant(SAME(begin, end) && OFF(begin) <= OFF(end) && OFF(begin) >= g_b0 && g_pend_size == 0 && g_pend_cb == 0 && g_pend_seek == 0 && g_evbad == 0 && !g_size_failed)
+__CPROVER_loop_invariant(r == g_last_r)
+__CPROVER_loop_invariant(r == MP_continue_input || r == MP_meta_ready || r == MP_content_partial || r == MP_content_ready || r == MP_eof)
+__CPROVER_loop_invariant((r == MP_eof && g_last_r == MP_eof) ==> (begin == end && self->read_size == self->content_length))
+'''},
+         contract=r'''
+__CPROVER_requires(__CPROVER_r_ok(self, sizeof(*self)) && SAME(begin, end) && OFF(begin) <= OFF(end) && OFF(begin) == g_b0 && self->cl_limit <= BUF_CAP && g_cl_limit == self->cl_limit && g_mpf == self->filter_is_multipart_filter &&
+                   g_pend_size == 0 && g_pend_cb == 0 && g_pend_seek == 0 && g_evbad == 0 && !g_size_failed && g_last_r == MP_continue_input)
+__CPROVER_assigns(g_last_r, g_pend_size, g_pend_cb, g_pend_seek, g_evbad, g_last_sizeok, g_size_failed, g_size_limit_seen)
+/* C12: the chunk is either consumed completely with every parser event forwarded exactly once, in order (seek before the size check of a finished part, size check before the filter call-back) ... */
+__CPROVER_ensures(__CPROVER_return_value == 0 || __CPROVER_return_value == 400 || __CPROVER_return_value == 413)
+__CPROVER_ensures(g_evbad == 0)
+__CPROVER_ensures(__CPROVER_return_value == 0 ==> (g_pend_size == 0 && g_pend_cb == 0 && g_pend_seek == 0 && !g_size_failed &&
+                  (g_last_r == MP_continue_input || g_last_r == MP_meta_ready || g_last_r == MP_content_partial || g_last_r == MP_content_ready || g_last_r == MP_eof) &&
+                  /* the parser's end coincides with the declared length, in both directions */
+                  (g_last_r == MP_eof ==> self->read_size == self->content_length) && (self->read_size == self->content_length ==> g_last_r == MP_eof)))
+/* ... or refused: 413 exactly for "no room left" and for a form field over the limit (checked against the configured content-length limit), 400 for everything malformed, early or late */
+__CPROVER_ensures(__CPROVER_return_value == 413 ==> (g_last_r == MP_no_room_left || g_size_failed))
+__CPROVER_ensures(g_size_failed ==> (__CPROVER_return_value == 413 && g_size_limit_seen == (long long)self->cl_limit))
+__CPROVER_ensures(g_last_r == MP_no_room_left ==> __CPROVER_return_value == 413)
+__CPROVER_ensures((g_last_r == MP_parsing_error || g_last_r < MP_continue_input || g_last_r > MP_parsing_error) ==> __CPROVER_return_value == 400)
+'''),
 ]
 
 jobs = [
@@ -104,12 +182,17 @@ jobs = [
     dict(name='req_read_file', props=['C12'], enforce='req_read_file', harness=r'''
     struct istrm st; SYM_BUF(char, b, n, BUF_CAP); st.p = b; st.n = n; size_t pos, k, rs; st.pos = pos; g_rf_k = k;
     req_read_file(rs, &st); VERIF_REACH;'''),
+    dict(name='req_size_ok', props=['C12'], enforce='req_size_ok', harness='int hm; long long fs, sz; g_has_mime = hm != 0; g_fsize = fs; g_notice = 0; req_size_ok(sz); VERIF_REACH;'),
+    dict(name='req_mp_loop', props=['C12', 'C02'], enforce='req_mp_loop', harness=r'''
+    struct req2 r; SYM_BUF(char, b, n, BUF_CAP); int mf, cf; r.filter_is_multipart_filter = mf != 0; g_mpf = r.filter_is_multipart_filter; g_cur_file = cf; __CPROVER_assume(r.cl_limit <= BUF_CAP); g_cl_limit = r.cl_limit; long long ol; g_other_limit = ol;
+    g_pend_size = 0; g_pend_cb = 0; g_pend_seek = 0; g_evbad = 0; g_size_failed = 0; g_last_r = MP_continue_input; g_b0 = OFF(b);
+    req_mp_loop(&r, b, b + n); VERIF_REACH;'''),
 ]
 
 UNIT = dict(
     name='request', pre=PRE, functions=functions, jobs=jobs,
     trusted=['request: request::_data fields are a C struct; content_limits accessors and lazy_content_type() are fields of that struct (R10)',
              'request: std::vector<char>::resize is a stub asserting 0 <= n <= limit; std::find, util::urldecode (proved in unit util), form insert are stubs asserting their ranges'],
-    not_covered={'C12': ['multipart parser (separate unit), temp files, content filters, on_content_progress state machine'],
+    not_covered={'C12': ['multipart parser (separate unit), temp files, the tail of on_content_progress (hand-over of the finished parts to post()/files(), raw content filter, exception translation)'],
                  'C02': ['exception translation in on_content_progress']},
 )
